@@ -20,7 +20,9 @@ class H:
 
     def env(self, markers=None, attrs=None):
         ms = lst(sorted((markers or {}).items()), lambda kv: enc(kv[0]) + "=" + kv[1])
-        ats = lst(sorted((attrs or {}).items()), lambda kv: enc(kv[0]) + "=" + ";".join(enc(x) for x in kv[1]))
+        def names(v):     # a list of names, or a tuple of lists = the pages the listing is served in
+            return "|".join(";".join(enc(x) for x in page) for page in v) if isinstance(v, tuple) else ";".join(enc(x) for x in v)
+        ats = lst(sorted((attrs or {}).items()), lambda kv: enc(kv[0]) + "=" + names(kv[1]))
         self.lines.append("ENV %s %s" % (ms, ats))
         return self
 
@@ -490,6 +492,47 @@ def main():
             .inst().create_bid("other", [(5, "q")], B2, None, "1", "q", 5, 5) \
             .create_bid("buyer", [(big, "q")], B1, None, "1", "q", big, big).create_ask("seller", [(big, "base")], A1, "base", "q", "1", big) \
             .match("exec", A1, B1, px, big).match("exec", A1, B1, "1", big).exits(owner_a="seller", owner_b="buyer").rev("cancel_bid", "other", B2).write()
+    # the bid fee configuration withdrawn by a migration while a fee-bearing bid rests (no execute request can do that):
+    # fills whose fee share is positive / rounds to zero, the fill that closes the bid, every exit, a partial reject
+    for tag, steps in (("fill_small_then_large", lambda h: h.match("exec", A1, B1, "1", 10).match("exec", A1, B1, "1", 100).match("exec", A1, B1, "1", 890)),
+                       ("fill_closing", lambda h: h.match("exec", A1, B1, "1", 1000)),
+                       ("cancel", lambda h: h.rev("cancel_bid", "buyer", B1)),
+                       ("expire", lambda h: h.rev("expire_bid", "exec", B1)),
+                       ("reject_part_then_cancel", lambda h: h.rev("reject_bid", "exec", B1, 300).query("get_bid", B1).rev("cancel_bid", "buyer", B1))):
+        h = H("c01_bid_fee_cleared_mid_history_" + tag, "a migration clears the bid fee while a fee-bearing bid rests").env()
+        h.inst(bfr="0.01", bfa="feeb").create_bid("buyer", [(1010, "q")], B1, (10, "q"), "1", "q", 1000, 1000) \
+            .create_ask("seller", [(1000, "base")], A1, "base", "q", "1", 1000).migrate(bfr="", bfa="").query("get_contract_info")
+        steps(h)
+        h.exits(owner_a="seller", owner_b="buyer").write()
+    H("c01_ask_fee_cleared_mid_history", "a migration clears the ask fee under resting orders, then a fill").env() \
+        .inst(afr="0.1", afa="feea").create_bid("buyer", [(100, "q")], B1, None, "1", "q", 100, 100) \
+        .create_ask("seller", [(100, "base")], A1, "base", "q", "1", 100).match("exec", A1, B1, "1", 10).migrate(afr="", afa="") \
+        .match("exec", A1, B1, "1", 10).migrate(afr="0.5", afa="feea").match("exec", A1, B1, "1", 10).exits(owner_a="seller", owner_b="buyer").write()
+    for who in ("afa", "bfa"):
+        kw = {who[0] + "fr": "0.1", who: "cosmos2contract"}
+        H("c13_contract_as_%s_fee_account" % ("ask" if who == "afa" else "bid"), "the contract's own address configured as a fee account").env() \
+            .inst(**kw).query("get_contract_info").create_bid("buyer", [(110 if who == "bfa" else 100, "q")], B1, (10, "q") if who == "bfa" else None, "1", "q", 100, 100) \
+            .create_ask("seller", [(100, "base")], A1, "base", "q", "1", 100).match("exec", A1, B1, "1", 50).exits(owner_a="seller", owner_b="buyer").write()
+    H("c07_attribute_listing_in_pages", "accounts whose attribute listing the attribute module serves in two pages") \
+        .env(attrs={"seller": (["kyc"], ["acc"]), "buyer": ([], ["kyc"]), "other": (["kyc", "acc"], ["buy"])}).inst(aattrs=["kyc", "acc"], battrs=["kyc"]) \
+        .create_ask("seller", [(5, "base")], A1, "base", "q", "2", 5).create_ask("other", [(5, "base")], A2, "base", "q", "2", 5) \
+        .create_bid("buyer", [(10, "q")], B1, None, "2", "q", 10, 5).create_bid("other", [(10, "q")], B2, None, "2", "q", 10, 5).write()
+    for code in ("R", "U"):
+        H("c10_native_coin_name_" + code, "a quote denomination spelled like the chain's native coin, typed by the marker table like any other") \
+            .env(markers={"nhash": code}).inst(quotes=("nhash",)) \
+            .create_bid("buyer", [] if code == "R" else [(10, "nhash")], B1, None, "2", "nhash", 10, 5) \
+            .create_bid("buyer", [(10, "nhash")] if code == "R" else [], B2, None, "2", "nhash", 10, 5) \
+            .create_ask("seller", [(5, "base")], A1, "base", "nhash", "2", 5).match("exec", A1, B1, "2", 2).rev("reject_bid", "exec", B1, 1) \
+            .exits(owner_a="seller", owner_b="buyer").write()
+    h = H("c14_c15_schema_words_and_undeclared_members", "a legacy book whose records carry a member the struct does not declare, owners named like schema fields migration").env()
+    h.lines += ["SEEDCFG ats ~ base cv q appr exec - feeb=0.1 [] [] 0 1", "SEEDVER ats_smart_contract 0.18.2",
+                "SEEDBID2X %s %s events_desk base 10 q 20 2:q 2 []" % (enc(B1), enc(B1)),
+                "SEEDBID3 %s %s events base 10 0 q 20 0 2:q 0 2" % (enc(B2), enc(B2)),
+                "SEEDASK %s %s accumulated_base basic base q 2 10" % (enc(A1), enc(A1))]
+    h.migrate().query("get_bid", B1).query("get_bid", B2).match("exec", A1, B1, "2", 4).rev("cancel_bid", "events_desk", B1).rev("cancel_bid", "events", B2).write()
+    H("c08_same_approval_twice", "the recorded approver repeats a flawless approval of an approved ask").env() \
+        .inst().create_ask("seller", [(10, "cv")], A1, "cv", "q", "2", 10).approve("appr", [(10, "base")], A1, "base", 10) \
+        .approve("appr", [(10, "base")], A1, "base", 10).query("get_ask", A1).rev("cancel_ask", "seller", A1).write()
     H("c05_wasm_admin_as_sender", "privileged requests from the account the wasm module knows as the contract's admin").env().inst() \
         .create_ask("seller", [(5, "base")], A1, "base", "q", "2", 5).create_bid("buyer", [(10, "q")], B1, None, "2", "q", 10, 5) \
         .modify("admin", executors=["admin"]).rev("expire_ask", "admin", A1).rev("cancel_bid", "admin", B1).match("admin", A1, B1, "2", 5) \
